@@ -197,6 +197,14 @@ impl UpdatePool {
         }
     }
 
+    /// Block until every task submitted to the pool has ended.
+    ///
+    /// Warm-up tasks of sessions which were dropped without being finished end asynchronously.
+    /// Must not be called while a session is alive: its warm-up task runs until the session ends.
+    pub fn wait_idle(&self) {
+        self.worker_tp.join();
+    }
+
     /// Create a `Updater` that uses the underlying pool.
     ///
     /// # Deadlocks
